@@ -225,7 +225,7 @@ def main(ctx):
     sizes = {rel: os.path.getsize(os.path.join(corpus.input_root(), rel)) for rel, _l in files}
     cases = []
     # (a) truncations
-    ntr = 1500 if quick else None
+    ntr = 3000 if quick else None
     trunc = []
     for rel, lang in files:
         if sizes[rel] > 40000 or rel in HANG_FILES:
@@ -251,7 +251,7 @@ def main(ctx):
         cases.append(mk(cut, lang, r, {'kind': 'truncation', 'file': rel, 'at': i}))
     # (b) mutations
     small = [f for f in files if sizes[f[0]] < 12000 and f[0] not in HANG_FILES]
-    for i in range(2500 if quick else 120000):
+    for i in range(5000 if quick else 120000):
         r = random.Random(core.subseed(ctx.useed, 'mut', i))
         rel, lang = r.choice(small)
         src, names = mutate.mutate(corpus.read(rel), r, r.randint(1, 3))
@@ -266,7 +266,7 @@ def main(ctx):
             for pre in (b'', prefix[lang]):
                 cases.append(family.Case(pre + tail, lang, {}, {'kind': 'eof-in-construct', 'tail': ti, 'cfgkind': 'default'}, {'quiet': False, 'profile': None}))
     # (c) random bytes
-    for i in range(300 if quick else 8000):
+    for i in range(600 if quick else 8000):
         r = random.Random(core.subseed(ctx.useed, 'rnd', i))
         n = r.choice([1, 2, 5, 20, 100, 600])
         alpha = r.choice([bytes(range(32, 127)) + b'\n\t', bytes(range(256)), b'{}()[]<>;,:\'"\\/#*@$ \n\tabc01', b'\x00\xff\xfe\xef\xbb\xbf\xc0\x80ab \n'])
@@ -279,5 +279,5 @@ def main(ctx):
         except Exception as ex:      # the fuzzer is a candidate generator only: its failure is recorded, never a verdict
             ctx.extra['libfuzzer'] = {'error': repr(ex)[:400]}
     raw = family.explore(ctx, judge, cases, batch=8)
-    raw += family.hyp_explore(ctx, judge, make_strategy, to_case, shards=16, examples=(60 if quick else 3000))
+    raw += family.hyp_explore(ctx, judge, make_strategy, to_case, shards=16, examples=(120 if quick else 3000))
     family.triage(ctx, judge, raw, minimise_src=20000, per_cluster=1, max_clusters=80)
